@@ -268,7 +268,7 @@ theorem specBody_agree (env : Spec.Env) (rec rec' : Spec.Rec) (scope : List Node
     exact child_congr (K := fun sub => Spec.kwUnevaluatedProps sub (Spec.vocab env.draft n) j ev)
       (fun sub => kwUnevaluatedProps_forget sub _ j ev) _ _ he
   unfold specBody kwList
-  rw [kwRef_congr env _ _ n j hh, kwDynamicRef_congr env _ _ n j hh, kwAllOf_congr _ _ n j hh, kwAnyOf_congr _ _ n j hh,
+  rw [kwRef_congr env _ _ n j hh, kwDynamicRef_congr env _ _ (Spec.vocab env.draft n) j hh, kwAllOf_congr _ _ n j hh, kwAnyOf_congr _ _ n j hh,
     kwOneOf_congr _ _ n j hh, kwNot_congr _ _ n j hh, kwIf_congr _ _ n j hh, kwDependentSchemas_congr env _ _ n j hh,
     child_congr (K := fun sub => Spec.kwItems env sub n j) (fun sub => kwItems_forget env sub n j) _ _ he,
     child_congr (K := fun sub => Spec.kwContains sub (Spec.vocab env.draft n) j)
